@@ -50,11 +50,11 @@ package scheduler
 //@   requires graph_wf(g)
 //@   requires node.data.State.Status == NodeStatusNone
 //@   modifies heap(Node.data.State)
-//@   ensures [C01,C02 ready_means_every_dependency_lets_it_proceed] ready ==>
+//@   ensures [C01,C02,C03 ready_means_every_dependency_lets_it_proceed] ready ==>
 //@        (forall j int :: 0 <= j && j < len(g.to[node.id]) ==> dep_ok(g.dict[g.to[node.id][j]]))
-//@   ensures [C01 satisfied_dependencies_make_it_ready]
+//@   ensures [C01,C03 satisfied_dependencies_make_it_ready]
 //@        (forall j int :: 0 <= j && j < len(g.to[node.id]) ==> old(dep_ok(g.dict[g.to[node.id][j]]))) ==> ready
-//@   ensures [C01 ready_keeps_status] ready ==> node.data.State.Status == NodeStatusNone
+//@   ensures [C01,C03 ready_keeps_status] ready ==> node.data.State.Status == NodeStatusNone
 //@   ensures [C02 label_justified] node.data.State.Status == NodeStatusNone ||
 //@        (node.data.State.Status == NodeStatusCancel &&
 //@           (exists j int :: 0 <= j && j < len(g.to[node.id]) && cancel_blocker(g.dict[g.to[node.id][j]]))) ||
@@ -66,10 +66,10 @@ package scheduler
 //@        ==> node.data.State.Status != NodeStatusNone
 //@   ensures [C02 other_steps_are_not_touched_by_the_gate] forall n *Node :: n != node && old(n.data.State.Status) != NodeStatusRunning ==>
 //@        n.data.State.Status == old(n.data.State.Status)
-//@   loop 0 invariant [C01,C02 ready_prefix] ready ==>
+//@   loop 0 invariant [C01,C02,C03 ready_prefix] ready ==>
 //@        (forall j int :: 0 <= j && j <= idx ==> dep_ok(g.dict[g.to[node.id][j]]))
-//@   loop 0 invariant [C01 ok_prefix] (forall j int :: 0 <= j && j <= idx ==> old(dep_ok(g.dict[g.to[node.id][j]]))) ==> ready
-//@   loop 0 invariant [C01 ready_unchanged] ready ==> node.data.State.Status == NodeStatusNone
+//@   loop 0 invariant [C01,C03 ok_prefix] (forall j int :: 0 <= j && j <= idx ==> old(dep_ok(g.dict[g.to[node.id][j]]))) ==> ready
+//@   loop 0 invariant [C01,C03 ready_unchanged] ready ==> node.data.State.Status == NodeStatusNone
 //@   loop 0 invariant [not_running] node.data.State.Status != NodeStatusRunning
 //@   loop 0 invariant [C02 label_prefix] node.data.State.Status == NodeStatusNone ||
 //@        (node.data.State.Status == NodeStatusCancel &&
@@ -507,9 +507,9 @@ package scheduler
 //@   assert before go [C01,C10 deps_ok_at_launch]
 //@        forall j int :: 0 <= j && j < len(g.to[arg0.id]) ==> dep_ok(g.dict[g.to[arg0.id][j]])
 //@   assert before go [C03 running_before_spawn] arg0.data.State.Status == NodeStatusRunning
-//@   assert before (*Node).setStatus#1 [C03,C10 launched_from_none] arg0.data.State.Status == NodeStatusNone && arg1 == NodeStatusRunning
-//@   assert before (*Node).setStatus#1 [C15 below_limit]
-//@        sc.maxActiveRuns > 0 ==> count_running(g, len(g.nodes)) < sc.maxActiveRuns
+//@   assert before (*Node).setStatus [C03,C10 launched_from_none] arg1 == NodeStatusRunning ==> arg0.data.State.Status == NodeStatusNone
+//@   assert before (*Node).setStatus [C15 below_limit]
+//@        arg1 == NodeStatusRunning ==> (sc.maxActiveRuns > 0 ==> count_running(g, len(g.nodes)) < sc.maxActiveRuns)
 //@   assert before context.WithTimeout [C05 run_deadline_is_the_configured_timeout] sc.timeout > 0 && arg1 == sc.timeout
 //@   assert before go [C05 stop_flag_is_consulted_before_every_launch] chk.fresh
 //@   assert before go [C01 launches_graph_node] arg0 == g.nodes[idx + 1]
@@ -690,14 +690,20 @@ package scheduler
 //@         (old(g.nodes[i].data.State.Status) == NodeStatusRunning && g.nodes[i].data.State.Status == NodeStatusCancel))
 //@   loop 0 invariant forall i int :: 0 <= i && i <= idx ==> g.nodes[i].data.State.Status != NodeStatusRunning
 
+// The words under which a status is shown and recorded (StatusText in the history and the API): each status has its
+// own word, and only a successful run or step is called "finished".
+//@ sfunc run_status_text(s Status) string = ite(s == StatusRunning, "running", ite(s == StatusError, "failed",
+//@        ite(s == StatusCancel, "canceled", ite(s == StatusSuccess, "finished", "not started"))))
+//@ sfunc step_status_text(s NodeStatus) string = ite(s == NodeStatusRunning, "running", ite(s == NodeStatusError, "failed",
+//@        ite(s == NodeStatusCancel, "canceled", ite(s == NodeStatusSuccess, "finished", ite(s == NodeStatusSkipped, "skipped", "not started")))))
 //@ fn (Status).String(s) (r)
-//@   props C08
-//@   trusted
+//@   props C08 C04
 //@   pure
+//@   ensures [C08,C04 run_status_is_shown_under_its_own_name] r == run_status_text(s)
 //@ fn (NodeStatus).String(s) (r)
-//@   props C08
-//@   trusted
+//@   props C08 C02
 //@   pure
+//@   ensures [C08,C02 step_status_is_shown_under_its_own_name] r == step_status_text(s)
 
 //@ ghost obs.nodedata_len int
 //@ fn (*ExecutionGraph).NodeData(g) (ret)
